@@ -1,6 +1,7 @@
 /-
   C05 — Sequential behaviour equals a simple contiguous-log model.
 -/
+import RaftWal.Generated.WalLogic
 import RaftWal.Proofs.WalRefine
 import RaftWal.Generated.Codec
 import RaftWal.Proofs.CrashSpecLink
@@ -100,5 +101,29 @@ theorem crash_spec_delTail_is_reference (tag : Log → Crash.Entry) (s : Spec.SL
     (hne : s.entries ≠ []) (h2 : s.firstIndex < mn) (h3 : mn ≤ s.lastIndex) (h4 : s.lastIndex ≤ mx) :
     Crash.view tag (s.delete mn mx).1 = Crash.specApply (Crash.view tag s) (.delTail (mn - 1)) ∧ (s.delete mn mx).2 = none :=
   Crash.delTail_link tag s mn mx hopen hne h2 h3 h4
+
+/-! ## the decision logic of wal.go, read from the source on every run (T1): the comparisons by which `DeleteRange`
+    classifies a range, the truncation scans pick the segments to keep, and `StoreLogs` re-bases or refuses — the ones
+    `Model.Wal.deleteRange` / `storeLogs` implement and `wal_refines_spec` is proved about -/
+
+theorem deleteRange_classification_from_source :
+    Generated.deleteRangeEmptyGuard = "min > max => return nil" ∧
+    Generated.deleteRangeSwitch =
+      [("max < first || min > last", "return nil"),
+       ("min <= first", "if max > last { max = last } ; return w.truncateHeadLocked(max + 1)"),
+       ("max >= last", "return w.truncateTailLocked(min - 1)"),
+       ("default", "return error")] := by decide
+
+theorem truncation_scans_from_source :
+    Generated.truncateTailStops = ["seg.BaseIndex <= newMax"] ∧
+    Generated.truncateHeadStops = ["newState.lastIndex() >= newMin", "seg.MaxIndex >= newMin"] := by decide
+
+theorem storeLogs_guards_from_source :
+    Generated.storeResetCond = "lastIdx == 0 && logs[0].Index != ti.BaseIndex" ∧
+    Generated.storeNonMonotonicCond = "lastIdx > 0 && l.Index != (lastIdx+1)" := by decide
+
+/-- both writers wait for a queued rotation before they look at the state (the model rotates inside the sealing append:
+    no call ever sees a sealed tail that is still the tail) -/
+theorem writers_wait_for_queued_rotation : Generated.writersAwaitRotationFirst = true := by decide
 
 end RaftWal.C05
